@@ -1,6 +1,7 @@
 package main
 
 import (
+	"go/token"
 	"fmt"
 	"go/types"
 	"math/big"
@@ -100,7 +101,7 @@ func (c *Ctx) identifyCallee(cc *ssa.CallCommon) calleeID {
 		}
 		return id
 	}
-	if ci, ok := c.closures[cc.Value]; ok {
+	if ci := c.closureOf(cc.Value); ci != nil {
 		id.fn = ci.fn
 		id.key, id.short, id.full = fnIDs(ci.fn)
 		return id
@@ -167,7 +168,7 @@ func (c *Ctx) callIsPure(cc *ssa.CallCommon) bool {
 		return false
 	}
 	if con := c.findContract(id); con != nil {
-		return con.Pure
+		return con.Pure || c.rulePure(id.short)
 	}
 	return c.P.isPureName(id.short) || c.rulePure(id.short)
 }
@@ -242,7 +243,7 @@ func (c *Ctx) callInner(in ssa.Instruction, cc *ssa.CallCommon, st *State, defer
 	con := c.findContract(id)
 	// directly called local closure without a contract: inline
 	if con == nil && id.fn != nil && id.fn.Parent() != nil && !deferred {
-		if ci, ok := c.closures[cc.Value]; ok && c.canInline(ci.fn) {
+		if ci := c.closureOf(cc.Value); ci != nil && c.canInline(ci.fn) {
 			return c.inlineClosure(ci, args, st, rt)
 		}
 	}
@@ -281,7 +282,9 @@ func (c *Ctx) callInner(in ssa.Instruction, cc *ssa.CallCommon, st *State, defer
 		// registered (conservative), its effect is part of the RunDefers havoc
 		return nil
 	}
-	if con.AssignsSet {
+	if !con.AssignsSet && c.rulePure(id.short) {
+		// a callrule of the caller assumes these calls leave the modelled heap alone
+	} else if con.AssignsSet {
 		for name := range c.heapSorts {
 			if !c.assignsAllowsCallee(con, name) {
 				continue
@@ -864,4 +867,36 @@ func fnPkgPath(f *ssa.Function) string {
 		return p.Path()
 	}
 	return ""
+}
+
+// closureOf: the closure a called function value denotes: a MakeClosure value itself, or the
+// content of a local variable that is assigned exactly once, with a closure (a func variable
+// that other closures capture lives in a variable cell and is called through a load).
+func (c *Ctx) closureOf(v ssa.Value) *closureInfo {
+	if ci, ok := c.closures[v]; ok {
+		return ci
+	}
+	ld, ok := v.(*ssa.UnOp)
+	if !ok || ld.Op != token.MUL {
+		return nil
+	}
+	a, ok := ld.X.(*ssa.Alloc)
+	if !ok || a.Referrers() == nil {
+		return nil
+	}
+	var stored ssa.Value
+	n := 0
+	for _, r := range *a.Referrers() {
+		if st, ok := r.(*ssa.Store); ok && st.Addr == ssa.Value(a) {
+			stored = st.Val
+			n++
+		}
+	}
+	if n != 1 {
+		return nil
+	}
+	if ci, ok := c.closures[stored]; ok {
+		return ci
+	}
+	return nil
 }
